@@ -114,8 +114,19 @@ theorem mem_preorderL_of_mem (c : Tree) : ∀ cs : List Tree, c ∈ cs → c ∈
 /-! ### Configuration and ordered sets -/
 def Entry.key (e : Entry) : String × Path := (e.layer, e.path)
 def Config.keys (c : Config) : List (String × Path) := c.entries.map Entry.key
-/-- at most one value per (layer, path): what `ConfigNode._values` (a dict per leaf) guarantees -/
-def Config.WF (c : Config) : Prop := c.keys.Nodup
+/-- no leaf path lies strictly below another one (every key is either a leaf or a sub-tree, in all layers) -/
+def Config.PF (c : Config) : Prop :=
+  ∀ e1 ∈ c.entries, ∀ e2 ∈ c.entries, e1.path ≠ e2.path → Config.under e1.path e2.path = false
+
+/-- at most one value per (layer, path): what `ConfigNode._values` (a dict per leaf) guarantees; and the
+tree shape is consistent -/
+def Config.WF (c : Config) : Prop := c.keys.Nodup ∧ c.PF
+
+theorem wf_empty (c : Config) (h : c.entries = []) : c.WF := by
+  simp [Config.WF, Config.keys, Config.PF, h]
+
+theorem wf_of_entries (c c' : Config) (h : c'.entries = c.entries) (hwf : c.WF) : c'.WF := by
+  simpa [Config.WF, Config.keys, Config.PF, h] using hwf
 
 theorem has_iff (c : Config) (l : String) (p : Path) : c.has l p = true ↔ (l, p) ∈ c.keys := by
   simp [Config.has, Config.keys, Entry.key, List.any_eq_true]
@@ -123,30 +134,49 @@ theorem has_iff (c : Config) (l : String) (p : Path) : c.has l p = true ↔ (l, 
 theorem update_ok (c c' : Config) (l : String) (p : Path) (v : Val) :
     c.update l p v = .ok c' ↔
       c.frozen = false ∧ l ∈ layers ∧ (l, p) ∉ c.keys ∧
-      c' = { c with entries := c.entries ++ [⟨l, p, v⟩] } := by
+      c' = { c with entries := c.entries ++ [⟨l, p, v⟩] } ∧ c.conflicts p = false := by
   unfold Config.update
   by_cases hf : c.frozen = true
   · simp [hf]
-  · by_cases hl : l ∈ layers
-    · by_cases hh : c.has l p = true
-      · have := (has_iff c l p).mp hh
-        simp [hf, hl, hh, this]
-      · have : (l, p) ∉ c.keys := fun h => hh ((has_iff c l p).mpr h)
-        simp [hf, hl, hh, this]; exact eq_comm
-    · simp [hf, hl]
+  · by_cases hx : c.conflicts p = true
+    · simp [hf, hx]
+    · simp only [Bool.not_eq_true] at hx
+      simp only [hx, and_true]
+      by_cases hl : l ∈ layers
+      · by_cases hh : c.has l p = true
+        · have := (has_iff c l p).mp hh
+          simp [hf, hl, hh, this]
+        · have : (l, p) ∉ c.keys := fun h => hh ((has_iff c l p).mpr h)
+          simp [hf, hl, hh, this]; exact eq_comm
+      · simp [hf, hl]
 
 theorem update_frozen (c : Config) (l : String) (p : Path) (v : Val) (h : c.frozen = true) :
     c.update l p v = .error .frozen := by simp [Config.update, h]
 
 theorem update_wf (c c' : Config) (l p v) (h : c.update l p v = .ok c') (hwf : c.WF) : c'.WF := by
-  obtain ⟨_, _, hk, rfl⟩ := (update_ok c c' l p v).mp h
-  unfold Config.WF Config.keys at *
-  simp only [List.map_append, List.map_cons, List.map_nil]
-  rw [List.nodup_append]
-  refine ⟨hwf, by simp, ?_⟩
-  intro a ha b hb hab
-  simp at hb; subst hb; subst hab
-  exact hk ha
+  obtain ⟨_, _, hk, rfl, hx⟩ := (update_ok c c' l p v).mp h
+  have hx' : ∀ e ∈ c.entries, e.path ≠ p → Config.under e.path p = false ∧ Config.under p e.path = false := by
+    intro e he hne
+    have := hx
+    simp only [Config.conflicts, List.any_eq_false, Bool.and_eq_true, Bool.or_eq_true, bne_iff_ne, ne_eq, not_and,
+      not_or, Bool.not_eq_true] at this
+    exact this e he hne
+  constructor
+  · have hwf := hwf.1
+    unfold Config.keys at *
+    simp only [List.map_append, List.map_cons, List.map_nil]
+    rw [List.nodup_append]
+    refine ⟨hwf, by simp, ?_⟩
+    intro a ha b hb hab
+    simp at hb; subst hb; subst hab
+    exact hk ha
+  · intro e1 h1 e2 h2 hne
+    simp only [List.mem_append, List.mem_singleton] at h1 h2
+    rcases h1 with h1 | h1 <;> rcases h2 with h2 | h2
+    · exact hwf.2 e1 h1 e2 h2 hne
+    · subst h2; exact (hx' e1 h1 hne).1
+    · subst h1; exact (hx' e2 h2 (fun h => hne h.symm)).2
+    · subst h1; subst h2; exact absurd rfl hne
 
 def mkEntries (l : String) (kvs : Defaults) : List Entry := kvs.map fun kv => ⟨l, kv.1, kv.2⟩
 
@@ -159,7 +189,7 @@ theorem updateAll_ok (l : String) : ∀ (kvs : Defaults) (c c' : Config), c.upda
     obtain ⟨c1, h1, h2⟩ := (foldlM_cons_ok _ kv kvs c c').mp h
     obtain ⟨hf, he, hw⟩ := updateAll_ok l kvs c1 c' h2
     have hwf1 := update_wf c c1 l kv.1 kv.2 h1
-    obtain ⟨_, _, _, rfl⟩ := (update_ok c c1 l kv.1 kv.2).mp h1
+    obtain ⟨_, _, _, rfl, _⟩ := (update_ok c c1 l kv.1 kv.2).mp h1
     refine ⟨by simpa using hf, by simp [he, mkEntries], fun hwf => hw (hwf1 hwf)⟩
 
 theorem add_ok (s s' : OrderedSet) (n : String) :
@@ -208,7 +238,7 @@ theorem atLayer_of_mem (c : Config) (hwf : c.WF) (l : String) (p : Path) (v : Va
     have hm := List.mem_of_find?_eq_some hf
     have hp := List.find?_some hf
     simp only [Bool.and_eq_true, beq_iff_eq] at hp
-    have : e = ⟨l, p, v⟩ := key_inj_of_nodup c.entries hwf e hm _ h (by simp [Entry.key, hp.1, hp.2])
+    have : e = ⟨l, p, v⟩ := key_inj_of_nodup c.entries hwf.1 e hm _ h (by simp [Entry.key, hp.1, hp.2])
     simp [this]
 
 theorem atLayer_none (c : Config) (l : String) (p : Path)
@@ -263,18 +293,20 @@ theorem Grows.trans {s s1 s2 : Sim} {a b : List Entry} (h1 : Grows s s1 a) (h2 :
 def userEntry (u : String × Path × Val) : Entry := ⟨(layerOfUpdate u.1).getD "", u.2.1, u.2.2⟩
 
 theorem userSet_ok (s s' : Sim) (what : String) (p : Path) (v : Val) (h : userSet s what p v = .ok s') :
-    (what = "model_specification" ∨ what = "configuration") ∧
+    (what = "model_specification" ∨ what = "configuration" ∨ what = "user_config_path") ∧
     Grows s s' [userEntry (what, p, v)] ∧ s'.managers = s.managers ∧ s'.components = s.components := by
   unfold userSet at h
   split at h
   · cases h
   · rename_i hw
-    have hw' : what = "model_specification" ∨ what = "configuration" := by
+    have hw' : what = "model_specification" ∨ what = "configuration" ∨ what = "user_config_path" := by
       by_cases h1 : what = "model_specification"
       · exact Or.inl h1
       · by_cases h2 : what = "configuration"
-        · exact Or.inr h2
-        · exact absurd ⟨h1, h2⟩ hw
+        · exact Or.inr (Or.inl h2)
+        · by_cases h3 : what = "user_config_path"
+          · exact Or.inr (Or.inr h3)
+          · exact absurd ⟨h1, h2, h3⟩ hw
     split at h
     · cases h
     · rename_i l hl
@@ -282,7 +314,7 @@ theorem userSet_ok (s s' : Sim) (what : String) (p : Path) (v : Val) (h : userSe
       simp only [pure, Except.pure, Except.ok.injEq] at hp
       subst hp
       have hwf := update_wf _ _ _ _ _ hc
-      obtain ⟨_, _, _, rfl⟩ := (update_ok _ _ _ _ _).mp hc
+      obtain ⟨_, _, _, rfl, _⟩ := (update_ok _ _ _ _ _).mp hc
       exact ⟨hw', ⟨by simp [userEntry, hl], rfl, rfl, rfl, rfl, rfl, hwf⟩, rfl, rfl⟩
 
 theorem applyDefaults_ok (c c' : Config) (d : Defaults) (h : applyDefaults c d = .ok c') :
@@ -327,7 +359,7 @@ theorem nodup_snoc {α : Type} (l : List α) (a : α) (h : l.Nodup) (ha : a ∉ 
 
 theorem users_ok : ∀ (us : List (String × Path × Val)) (s s' : Sim),
     us.foldlM (fun s u => userSet s u.1 u.2.1 u.2.2) s = .ok s' →
-    (∀ u ∈ us, u.1 = "model_specification" ∨ u.1 = "configuration") ∧
+    (∀ u ∈ us, u.1 = "model_specification" ∨ u.1 = "configuration" ∨ u.1 = "user_config_path") ∧
     Grows s s' (us.map userEntry) ∧ s'.managers = s.managers ∧ s'.components = s.components
   | [], s, s', h => by
     have := (foldlM_nil_ok _ s s').mp h
@@ -409,7 +441,7 @@ theorem tryWrite_steps (s : Sim) (a : String × Path × Val) : Steps s (tryWrite
   unfold tryWrite
   split
   · rename_i c hc
-    obtain ⟨_, _, _, rfl⟩ := (update_ok _ _ _ _ _).mp hc
+    obtain ⟨_, _, _, rfl, _⟩ := (update_ok _ _ _ _ _).mp hc
     exact ⟨rfl, rfl, rfl, rfl, by simp⟩
   · exact ⟨rfl, rfl, rfl, rfl, by simp⟩
 
@@ -620,7 +652,7 @@ theorem bootstrap_ok (user : List (String × Path × Val)) (mgrs : List (String 
     (h1 : user.foldlM (fun s u => userSet s u.1 u.2.1 u.2.2) ({} : Sim) = .ok s1)
     (h2 : mgrs.foldlM (fun s m => addManager s m.1 m.2) s1 = .ok s2)
     (h3 : addComponents s2 ts = .ok s3) :
-    (∀ u ∈ user, u.1 = "model_specification" ∨ u.1 = "configuration") ∧
+    (∀ u ∈ user, u.1 = "model_specification" ∨ u.1 = "configuration" ∨ u.1 = "user_config_path") ∧
     s3.cfg.entries = user.map userEntry ++ mgrEntries mgrs ++ compEntries (preorderL ts) ∧
     s3.cfg.WF ∧ s3.cfg.frozen = false ∧ s3.started = false ∧ s3.log = [] ∧ s3.seen = [] ∧ s3.tried = [] ∧
     s3.managers = mgrs.map (·.1) ∧ s3.components = (preorderL ts).map Tree.name := by
@@ -628,7 +660,7 @@ theorem bootstrap_ok (user : List (String × Path × Val)) (mgrs : List (String 
   obtain ⟨g2, m2, _, c2⟩ := mgrs_ok _ _ _ h2
   obtain ⟨_, g3, c3, _, m3⟩ := addComponents_ok _ _ _ h3
   have g := (g1.trans g2).trans g3
-  refine ⟨hu, by simpa using g.entries, g.wf (by simp [Config.WF, Config.keys]), by simpa using g.frozen,
+  refine ⟨hu, by simpa using g.entries, g.wf (wf_empty _ rfl), by simpa using g.frozen,
           by simpa using g.started, by simpa using g.log, by simpa using g.seen, by simpa using g.tried, ?_, ?_⟩
   · rw [m3, m2, m1]; simp
   · rw [c3, c2, c1]; simp
